@@ -38,7 +38,8 @@ impl<'t, D: Doc> ScanResultInner<'t, D> {
     if let Some(rule) = combined.unused_suppression_rule {
       if separate_fix {
         diffs.extend(self.unused_suppressions.into_iter().map(|nm| (rule, nm)));
-        diffs.sort_unstable_by_key(|(_, nm)| nm.range().start);
+        // stable: diffs that start together keep the order in which they were found
+        diffs.sort_by_key(|(_, nm)| nm.range().start);
       } else if !self.unused_suppressions.is_empty() {
         // do not push empty suppression to matches
         let mut supprs = self.unused_suppressions;
